@@ -59,6 +59,28 @@ def render_src(e, t):
         "        def seq():",
         f"            self.oq <<= {expr.r(e)}",
     ]
+    picks = expr.rt_index_picks(e)
+    if picks:
+        # late use: every run-time-indexed element whose index is a plain operand is bound to a name while the index
+        # sits in a variable; the variable is changed before the element is used -- the element selected when the
+        # expression was evaluated has to be used (the index is part of the expression's value, not a live reference)
+        L.insert(L.index(f"    oq = Port.output({ot})") + 1, f"    ol = Port.output({ot})")
+        idx_ports = sorted({p[3][2] for p in picks})
+        L += ["        @std.sequential(std.Clock(self.clk))", "        def late():"]
+        for n in idx_ports:
+            L.append(f"            v_{n} = Variable(self.{n})")
+        try:
+            for k, p in enumerate(picks):
+                expr.SUBST[id(p[3])] = f"v_{p[3][2]}"
+                L.append(f"            x{k} = {expr.r(p)}")
+                del expr.SUBST[id(p[3])]
+            for n in idx_ports:
+                L.append(f"            v_{n} @= v_{n} + 1")
+            for k, p in enumerate(picks):
+                expr.SUBST[id(p)] = f"x{k}"
+            L.append(f"            self.ol <<= {expr.r(e)}")
+        finally:
+            expr.SUBST.clear()
     return "\n".join(L) + "\n"
 
 
@@ -94,13 +116,14 @@ def simulate(e, t, design, seed, idx):
     vals, exhaustive = valuations(rs, ports)
     d = dutm.Dut(design, rng.derive(seed, "C02", "order", idx), "c02")
     d.start(dict(vals[0]))
+    outs = ("oc", "oq", "ol") if expr.rt_index_picks(e) else ("oc", "oq")
     for k, env in enumerate(vals):
         want = expr.ev(e, env)
         d.clock(env)
-        for which in ("oc", "oq"):
+        for which in outs:
             got = d.get(which)
             if got != want:
-                return "wrong-value", {"output": "concurrent" if which == "oc" else "clocked", "step": k, "operands": env, "expected": want, "got": got}, len(vals), exhaustive
+                return "wrong-value", {"output": {"oc": "concurrent", "oq": "clocked", "ol": "clocked, run-time-indexed elements bound before their index variable changes"}[which], "step": k, "operands": env, "expected": want, "got": got}, len(vals), exhaustive
         d.half()
         if d.get("oc") != want:
             return "wrong-value", {"output": "concurrent", "step": k, "phase": "inactive-edge", "operands": env, "expected": want, "got": d.get("oc")}, len(vals), exhaustive
@@ -113,7 +136,7 @@ def simulate(e, t, design, seed, idx):
 def evaluate(seed, idx, tier):
     e, t = gen_case(seed, idx, tier)
     src = render_src(e, t)
-    info = {"ops": sorted(expr.ops_in(e, set())), "nodes": expr.count(e), "type": list(t), "expr": expr.r(e)}
+    info = {"ops": sorted(expr.ops_in(e, set())), "nodes": expr.count(e), "type": list(t), "expr": expr.r(e), "late_use": len(expr.rt_index_picks(e))}
     try:
         design = dutm.compile_design(src)
     except render.Rejected as ex:
@@ -194,6 +217,7 @@ def evidence(results, tier):
         "distinct = distinct (operator set, result type); non-trivial = accepted with >= 3 nodes",
         "samples": [sample] if sample else [],
         "accepted": len(acc),
+        "with_late_use_context(run-time-indexed element bound, index variable changed, then used)": len([r for r in acc if r["info"].get("late_use")]),
         "exhaustive_over_operands": len([r for r in acc if r["info"].get("exhaustive")]),
         "valuations_simulated": sum(r["info"].get("valuations", 0) for r in acc),
         "operator_histogram": dict(sorted(ops.items())),
